@@ -17,6 +17,10 @@ CLAIMED["C13"] = dict(
    text="Every array access executed while the real kernel source runs on symbolic inputs carries the obligation -len <= index < len; per kernel the solver is asked for an input accepted by the public space that breaks one (unsat = no such input within the bound). Models are replayed through the public API in a fresh interpreter under NUMBA_BOUNDSCHECK=1.",
    note="Covers the kernels listed in the evidence of the run (TTP: count_errors, game_plan_length, map_games; further kernels are added as their harnesses are built). Trusted: z3, the array shim's index semantics (negative wrap).",
    design="4/C13")
+CLAIMED["C15"] = dict(
+   text="Decoder: the body of the real map_games loop is run once from an arbitrary mutually consistent plan (entries -n..n, no self-play) with an arbitrary game code; the solver shows that the game lands on the earliest day on which both teams are free, that exactly the two cells are written consistently, that nothing else changes and that the invariant is kept (n<=8, rounds<=2 quick; n<=12, rounds<=4 thorough); the real prefix zeroes arbitrary garbage; whole-run cross-check against a declaratively defined plan for small sizes. Search space: counting properties of the real blueprint for enumerated (n, rounds) - configuration enumeration, labelled as such.",
+   note="Trusted: z3, array shim; lifting the step to whole decodings is loop induction (cross-checked by whole-run queries at (2,2),(3,1),(3,2)). The search-space half is enumeration of configurations, not a solver verdict.",
+   design="4/C15")
 NA = {
  "C12": "quantifies over complete optimisation runs (moptipy Execution/Process, RNG streams, log files, budgets): no bounded symbolic encoding within reach; its solver-decidable ingredients are claimed under C01, C02, C04-C06, C19",
 }
